@@ -314,6 +314,10 @@ def bilin_inv(
         x -= (Gy * (Fs - f) - Fy * (Gs - g)) / det
         y -= (-Gx * (Fs - f) + Fx * (Gs - g)) / det
 
+        # Keep the iterates inside the arrays
+        x = np.clip(x, 0.0, np.nextafter(imax - 1.0, 0.0))
+        y = np.clip(y, 0.0, np.nextafter(jmax - 1.0, 0.0))
+
     return x, y
 
 
